@@ -158,12 +158,25 @@ def run(tier: str) -> int:
         meta.append((label, shapes))
     import pypika_tortoise as P
 
-    tables = {"t": P.Table("t"), "u": P.Table("u"), "v": P.Table("v"), "e1": P.Table("emp", alias="e1"), "e2": P.Table("emp", alias="e2")}
+    tables = {"t": P.Table("t"), "u": P.Table("u"), "v": P.Table("v"), "e1": P.Table("emp", alias="e1"), "e2": P.Table("emp", alias="e2"),
+              "s1i": P.Table("item", schema="s1"), "s2i": P.Table("item", schema="s2")}
+
+    def src_of(tb):
+        """the source id of a table object found in the expression (the very objects the tree was built from)"""
+        if tb is None:
+            return ""
+        for k, v in tables.items():
+            if v is tb:
+                return k
+        for k, v in tables.items():
+            if v == tb and str(v) == str(tb):
+                return k
+        return "?" + str(tb)
     for t in trees:
         term = build_tree(t["tree"], tables)
         try:
-            fields = sorted({(f.table.get_table_name() if f.table is not None else "", f.name) for f in term.fields_()})
-            tabs = sorted({x.get_table_name() for x in term.tables_})
+            fields = sorted({(src_of(f.table), f.name) for f in term.fields_()})
+            tabs = sorted({src_of(x) for x in term.tables_})
         except Exception as ex:  # noqa
             raise core.MachineryError(f"fields_/tables_ raised on {t['tree']}: {ex!r}")
         events.append({"tid": len(events), "kind": "tree", "tree": t["tree"], "fields": [list(f) for f in fields], "tables": tabs})
@@ -193,8 +206,8 @@ def run(tier: str) -> int:
             term.fields_(), term.tables_, str(term)
             term2 = term.replace_table(tables["t"], tables["w"])
             combo = Function("PAIR", term, term2)
-            fields = sorted({(f.table.get_table_name() if f.table is not None else "", f.name) for f in combo.fields_()})
-            tabs = sorted({x.get_table_name() for x in combo.tables_})
+            fields = sorted({(src_of(f.table), f.name) for f in combo.fields_()})
+            tabs = sorted({src_of(x) for x in combo.tables_})
         except Exception as ex:  # noqa
             raise core.MachineryError(f"history over {t['tree']} raised: {ex!r}")
         ctree = {"k": "call", "f": "PAIR", "args": [t["tree"], retarget(t["tree"])]}
